@@ -321,3 +321,34 @@ Proof.
   revert seen. induction l as [|o r IH]; intros seen; simpl; [constructor|].
   destruct (mem o seen); auto. constructor; auto. rewrite fresh_In. simpl. tauto.
 Qed.
+
+(* ---------- histories: any sequence of the four operators from any constructor call ---------- *)
+Inductive cop := OIAdd (l : list nat) | OAdd (l : list nat) | OISub (l : list nat) | OSub (l : list nat).
+Definition cstep (c : cres) (o : cop) : cres :=
+  match c with
+  | COk c => match o with OIAdd l => COk (iadd c l) | OAdd l => COk (add c l) | OISub l => isub c l | OSub l => sub c l end
+  | e => e
+  end.
+(* the abstract ordered set: a duplicate-free list *)
+Definition astep (s : list nat) (o : cop) : list nat :=
+  match o with
+  | OIAdd l | OAdd l => s ++ fresh s l
+  | OISub l | OSub l => filter (fun x => negb (mem x l)) s
+  end.
+Lemma cstep_refines c o : Inv c -> exists c', cstep (COk c) o = COk c' /\ Inv c' /\ items c' = astep (items c) o.
+Proof.
+  intros H. destruct o as [l|l|l|l]; cbn [cstep astep].
+  - destruct (iadd_spec l c H) as [H1 H2]. eauto.
+  - destruct (add_spec c l H) as [H1 H2]. eauto.
+  - exact (isub_spec l c H).
+  - exact (sub_spec c l H).
+Qed.
+Theorem history_refines : forall ops c, Inv c ->
+  exists c', fold_left cstep ops (COk c) = COk c' /\ Inv c' /\ items c' = fold_left astep ops (items c).
+Proof.
+  induction ops as [|o r IH]; intros c H; cbn [fold_left]; [eauto|].
+  destruct (cstep_refines c o H) as (c1 & E & H1 & I1). rewrite E. destruct (IH c1 H1) as (c' & E' & H' & I'). rewrite I1 in I'. eauto.
+Qed.
+Corollary history_from_ctor l0 ops :
+  exists c', fold_left cstep ops (COk (mk l0)) = COk c' /\ Inv c' /\ items c' = fold_left astep ops (dedup l0).
+Proof. destruct (mk_spec l0) as [H E]. rewrite <- E. now apply history_refines. Qed.
